@@ -384,7 +384,14 @@ class Module(metaclass=ModuleMeta):
         if in_project is None:
             in_project = self.parent is not None
         yield b"SFFF", pack("<I", self.flags)
-        yield b"SNAM", self.name.encode(ENCODING)[:32].ljust(32, b"\0")
+        name = self.name.encode(ENCODING)
+        if len(name) > 32:
+            # Truncate on a character boundary, never inside a multi-byte sequence.
+            cut = 32
+            while cut > 0 and (name[cut] & 0xC0) == 0x80:
+                cut -= 1
+            name = name[:cut]
+        yield b"SNAM", name.ljust(32, b"\0")
         if self.mtype is not None and self.mtype != "Output":
             yield b"STYP", self.mtype.encode(ENCODING) + b"\0"
         yield b"SFIN", pack("<i", self.mod_finetune)
